@@ -6,6 +6,7 @@ CONSTANTS
   Dev_IdleIgnoresTimers = FALSE
   Dev_InternalActivityKeepsIdleFlag = FALSE
   Dev_IdleIgnoresMailbox = FALSE
+  Dev_CancelBypassesLock = TRUE
   WithCancel = TRUE
 INIT Init
 NEXT Next
